@@ -78,8 +78,14 @@ def gen_chain(rng):
               "assigns": [{"target": "dep", "mode": "single", "n": 0, "expr": e}],
               "expect": (rng.pick(["always", "eventually", "once"]), ("bin", "ge", g.var("dep"), g.num(rng.range(1, 4)))), "watches": []}
         members.append(m1)
+    snapped = False
+    if rng.chance(1, 2):
+        # another member keeps a copy of the collection while it is active; the copy must not move afterwards
+        members.append({"name": "snap", "cond": rng.pick([("bin", "eq", g.var("mood"), ("str", "blue")), ("bin", "lt", g.var("t"), g.num(rng.range(4, 20)))]),
+                        "assigns": [{"target": "frozen", "mode": "single", "n": 0, "expr": g.var("bin")}], "expect": None, "watches": []})
+        snapped = True
     obs = {"name": "w", "cond": None, "assigns": [], "expect": None,
-           "watches": [("", "bin")] + ([("", "dep")] if len(members) > 1 and rng.chance(1, 2) else []) + ([("", "agg")] if f != "sorted" and rng.chance(1, 2) else [])}
+           "watches": [("", "bin")] + ([("", "frozen")] if snapped else []) + ([("", "dep")] if any(m["name"] == "m1" for m in members) and rng.chance(1, 2) else []) + ([("", "agg")] if f != "sorted" and rng.chance(1, 2) else [])}
     members.append(obs)
     return {"signals": [("s", "scalar")], "actors": ["a"], "members": members}
 
@@ -205,6 +211,19 @@ def run(tier, seed):
                     vd = {"var": k, "impl": iv, "model": str(v)}
         if d or vd:
             kdis.append({"config": text, "events": [str(e) for e in evs], "diff": d, "vars": vd})
+        # O: a watched variable only changes through an assignment that is collected: its final value is the
+        # last value the observer was told about
+        if im["abort"] == "none":
+            lastobs = {}
+            for it in im["stream"]:
+                if it[0] == "obs" and it[3][0] == "":
+                    lastobs[it[3][1]] = it[4]
+            for (_, vn) in cfg["members"][-1]["watches"]:
+                fin = im["vars"].get(vn)
+                if vn in lastobs and not g.num_eq(fin, lastobs[vn], TEND):
+                    ofail.append({"what": "variable %s changed without an assignment being collected" % vn, "config": text, "events": g.events_json(evs),
+                                  "impl": fin, "oracle": "last collected value %s" % (lastobs[vn],), "tag": {"fn": "silent-change", "var": vn}})
+                rep.count("silent-change-oracle")
         a0 = cfg["members"][0]["assigns"][0]
         if a0["expr"] == g.var("s", "a") and im["abort"] == "none":
             prod = active_samples(cfg, evs)
